@@ -97,15 +97,22 @@ def check_conformal(res, p, q, rng, reps, ob):
         d2 = qx + qy - 2 * b
         if not approx((X | Y).value, [-d2 / 2] + zero[1:], scale * scale):
             res.violate('up(x)|up(y) != -(x-y)^2/2', inp, (X | Y).value.tolist(), core.fstr(-d2 / 2), dict(site, op='distance'))
-        for s in (Fraction(1), Fraction(int(rng.choice([-3, 2, 5, -7])), 2 ** int(rng.integers(0, 5)))):
+        # the scale of a conformal point is arbitrary: also weights far from 1 (powers of two: every product stays exact)
+        for s in (Fraction(1), Fraction(int(rng.choice([-3, 2, 5, -7])), 2 ** int(rng.integers(0, 5))),
+                  Fraction(int(rng.choice([-1, 1])), 2 ** int(rng.choice([24, 30, 40]))), Fraction(int(rng.choice([-1, 1])) * 2 ** int(rng.choice([24, 30])))):
             res.case(('down', p, q, tuple(xs), s), nontrivial=nt)
-            D = down(float(s) * X)
+            try:
+                D = down(float(s) * X)
+                H = homo(float(s) * X)
+            except (ValueError, ZeroDivisionError, FloatingPointError) as e:
+                res.violate('down / homo raises on a conformal point with a non-zero weight', dict(inp, s=core.fstr(s)), repr(e)[:200],
+                            [core.fstr(c) for c in fr(x.value)], dict(site, op='down-raises', error=type(e).__name__))
+                continue
             if not approx(D.value, fr(x.value), scale):
                 res.violate('down(s*up(x)) != x', dict(inp, s=core.fstr(s)), D.value.tolist(), [core.fstr(c) for c in fr(x.value)], dict(site, op='down'))
-            H = homo(float(s) * X)
             if not approx(H.value, fr(X.value), scale):
                 res.violate('homo does not remove the scale', dict(inp, s=core.fstr(s)), H.value.tolist(), None, dict(site, op='homo'))
-            if not wide:
+            if not wide and abs(s) <= 64 and abs(s) >= Fraction(1, 64):
                 ob.op(tag, Lc, 'cdown', [core.mvstr([c * s for c in fr(X.value)])], D.value, nontrivial=nt)
 
 
